@@ -60,9 +60,13 @@ def configs_for(nt):
     out = []
     for pat in itertools.product((False, True), repeat=nt):
         out.append([dict(state=p) for p in pat])
-    if nt >= 1:
-        out.append([dict(state=True, partner=(dict(state=True) if i == 0 else None)) for i in range(nt)])
-        out.append([dict(state=(i != 0), partner=(dict(state=True) if i == 0 else None)) for i in range(nt)])
+    # partnered configurations, for EVERY terminal: the data may arrive only through the connected terminal (the device must read the
+    # terminal, i.e. the mean of own and partner, not its own slot), or through both
+    for k in range(nt):
+        out.append([dict(state=True, partner=(dict(state=True) if i == k else None)) for i in range(nt)])
+        out.append([dict(state=(i != k), partner=(dict(state=True) if i == k else None)) for i in range(nt)])
+        if nt >= 2:
+            out.append([dict(state=False, partner=(dict(state=True) if i == k else None)) for i in range(nt)])
     return out
 
 
